@@ -2,3 +2,4 @@ import DDProofs.Sem
 import DDProofs.Canon
 import DDProofs.Ext
 import DDProofs.Inv
+import DDProofs.MddProofs
